@@ -159,10 +159,77 @@ def repl_cases():
         for ri in range(len(RECV)):
             for pat in ['"a"', '"X"', '"bX"', '""', '"b"', '","', '"$"']:
                 for rp in REPL + ["function(m){ return m + m }",
-                                  "function(m, i, t){ return typeof i + i + (t === s) }"]:
+                                  "function(m, i, t){ return typeof i + i + (t === s) }",
+                                  'function(){ return "$$" }', 'function(){ return "[$&|$`|$\'|$1]" }',
+                                  'function(m){ return "$" + m + "$&" }', "function(){ return {toString: function(){ return '$&' }} }",
+                                  "function(){ }", "function(){ return null }", "function(){ return 0 }"]:
                     args = (pat, rp)
                     out.append(_case(RECV[ri], "s.%s(%s)" % (m, ", ".join(args)), m, args, ri))
     return out
+
+
+# regular expressions where a string method takes a separator / pattern: every flag combination that changes how the
+# search position moves (global, sticky), captures, empty matches, a lastIndex left over from earlier use
+REGEX_ARGS = ["/,/", "/,/g", "/,/y", "/,/gy", "/(,)/", "/(,)|(b)/y", "/x*/", "/x*/y", "/(?:)/", "/(?:)/y", "/a|X/i", "/a/iy", "/$/", "/^/y", "/\\s+/y",
+              "/[a-c]/gy", "new RegExp(',', 'y')", "(function(){ var r = /,/y; r.lastIndex = 3; return r })()",
+              "(function(){ var r = /,/g; r.lastIndex = 3; return r })()", "(function(){ var r = /a/; r.lastIndex = 2; return r })()"]
+REGEX_SECOND = {"split": [None, "undefined", "0", "1", "2", "-1", "100"],
+                "replace": ['"-"', '"[$&$1]"', "function(m){ return '<' + m + '>' }", 'function(){ return "$&$&" }'],
+                "replaceAll": ['"-"', '"[$&$1]"', "function(m){ return '<' + m + '>' }"]}
+
+
+def regex_arg_cases():
+    out = []
+    for m, seconds in REGEX_SECOND.items():
+        for ri in range(len(RECV)):
+            for rx in REGEX_ARGS:
+                for sec in seconds:
+                    args = (rx,) if sec is None else (rx, sec)
+                    # the regex object is kept, so its lastIndex after the call is part of the observation
+                    src = ('var s = %s; var rx = %s; var r; try { r = s.%s(%s) } catch (e) { r = "throw:" + e.name } __out(s === %s); __out(rx.lastIndex); r'
+                           % (RECV[ri], rx, m, ", ".join(("rx",) + args[1:]), RECV[ri]))
+                    out.append((src, {"src": src, "nt": True, "m": m, "a": list(args), "r": ri}))
+    return out
+
+
+# arguments whose conversion throws the first time it is attempted and succeeds afterwards: the second call with the very
+# same argument object must behave as if the first had never happened
+THROW_ONCE = [
+    ("obj-toString", "{toString: function () { if (n++ === 0) { throw new TypeError('first') } return 'a' }}"),
+    ("obj-valueOf", "{valueOf: function () { if (n++ === 0) { throw new RangeError('first') } return 1 }, toString: null}"),
+    ("array-elem", "[{toString: function () { if (n++ === 0) { throw new TypeError('first') } return 'a' }}, 'X']"),
+    ("array-nested", "[[{toString: function () { if (n++ === 0) { throw new TypeError('first') } return 'b' }}], 'c']"),
+    ("array-plain", "['a', 1]"),
+]
+
+
+def throw_once_cases():
+    out = []
+    recv = ['"aXbX"', '"a,b,,c"', '"abc"']
+    for m in METHODS + ["String", "fromCharCode"]:
+        for rv in recv:
+            for an, a in THROW_ONCE:
+                for pos in (0, 1):
+                    for other in ("1", '"a"'):
+                        args = ["A", other] if pos == 0 else [other, "A"]
+                        if m == "String":
+                            call = "String(A)" if pos == 0 else None
+                        elif m == "fromCharCode":
+                            call = "String.fromCharCode(%s)" % ", ".join(args)
+                        else:
+                            call = "s.%s(%s)" % (m, ", ".join(args))
+                        if call is None or (m == "repeat" and other != "1"):
+                            continue
+                        src = ("var n = 0; var A = %s; var s = %s; var r1, r2, r3; try { r1 = %s } catch (e) { r1 = 'throw:' + e.name } "
+                               "try { r2 = %s } catch (e) { r2 = 'throw:' + e.name } try { r3 = 'x'.concat(A) + [A].join('') + String(A) } catch (e) { r3 = 'throw:' + e.name } "
+                               "__out(s === %s); __out(r1); __out(r3); r2" % (a, rv, call, call, rv))
+                        out.append((src, {"src": src, "nt": True, "m": m, "a": [an, "pos%d" % pos, other], "r": -1}))
+    seen, uniq = set(), []
+    for c in out:
+        if c[0] not in seen:
+            seen.add(c[0])
+            uniq.append(c)
+    return uniq
 
 
 # ---------------------------------------------------------------------------------------------- spaces
@@ -191,6 +258,17 @@ def core_spaces():
     sp.append(_space("c16_access", lambda: access_cases(False),
                      "s.length and s[k] for k over the grid plus canonical / non-canonical index strings",
                      "14 receivers x 25"))
+    sp.append(_space("c16_regex_args", regex_arg_cases,
+                     "split / replace / replaceAll x 14 receivers x %d regular-expression arguments (global, sticky, captures, empty "
+                     "matches, left-over lastIndex) x limits / replacements; the regex's lastIndex after the call is logged" % len(REGEX_ARGS),
+                     "3 methods x 14 x %d x <= 7" % len(REGEX_ARGS)))
+    sp.append(_space("c16_throw_once", throw_once_cases,
+                     "every method x argument position x 5 arguments whose conversion throws on the first attempt only (object, array "
+                     "element, nested array): the call is made twice with the same argument object, then the argument is converted "
+                     "by concat / join / String", "22 methods x 3 receivers x 5 x 2 x 2"))
+    sp.append(_space("c16_replacement", lambda: repl_cases(),
+                     "replace / replaceAll with string patterns: $-substitution patterns and replacer functions (including "
+                     "functions whose result contains $-patterns, objects, nothing)", "2 x 14 x 7 patterns x 22 replacements"))
     sp.append(_space("c16_ctor", lambda: ctor_cases(False),
                      "String(args) and String.fromCharCode(args) for arity 0..2 over the grid", "2 x (1+g+g*16)"))
     return sp
@@ -207,9 +285,6 @@ def thorough_strata():
                      "17 receivers x 29 minus core"))
     st.append(_space("c16_ctor_ext", lambda: ctor_cases(True), "String / fromCharCode with object arguments",
                      "2 x tuples with an object argument"))
-    st.append(_space("c16_replacement", lambda: repl_cases(),
-                     "replace / replaceAll with string patterns: $-substitution patterns and replacer functions",
-                     "2 x 14 x 7 patterns x 15 replacements"))
     return st
 
 
